@@ -9,15 +9,15 @@ UNITS += [Unit('jd_hook', 'wrappers/jd.cpp', defs=['ARENA_N=2', 'ARENA_CHUNK=48'
           Unit('mpd_hook', 'wrappers/mpd.cpp', defs=['ARENA_N=3', 'ARENA_CHUNK=64', 'ARDUINOJSON_POOL_CAPACITY=4', 'ARDUINOJSON_INITIAL_POOL_COUNT=2'],
                cuts={'CUT_RA': r'MsgPackDeserializerI7VReaderE9readArrayINS1_14AllowAllFilterE', 'CUT_RO': r'MsgPackDeserializerI7VReaderE10readObjectINS1_14AllowAllFilterE'}, memhook=True, memhook_allow=r'^_ZL6farena$|^_ZL5arena$')]
 OBS += [
- Ob(['C20'], 'frame_json_strings', 'jd_hook', 'harness/jd_str.c', 'h_pqs', defs=['UNIT_H="jd_hook.h"', 'NB=7', 'PREFIX_U=1'], unwind=10, lunwind=[(r'parseQuotedString.*\.1$', 11)], fs='none', cap=400, hunwind=36, validate=2,
+ Ob(['C20'], 'frame_json_strings', 'jd_hook', 'harness/jd_str.c', 'h_pqs', defs=['UNIT_H="jd_hook.h"', 'NB=7', 'PREFIX_U=1'], unwind=10, lunwind=[(r'parseQuotedString.*\.1$', 11)], fs='none', cap=400, hunwind=36, validate=2, witness=False,
     desc='store hook while a JSON string with \\u escapes (surrogates included) is scanned: no store into a global (e.g. a static code-point accumulator)', bound='as pqs_u6'),
- Ob(['C20'], 'frame_json_leafs', 'jd_hook', 'harness/jd_leaf.c', 'h_keyword', defs=['UNIT_H="jd_hook.h"', 'NB=6'], unwind=8, fs='none', cap=200, hunwind=24, validate=2, desc='store hook on keyword scanning', bound='as keyword'),
- Ob(['C20'], 'frame_msgpack_ints', 'mpd_hook', 'harness/mpd.c', 'h_md_variant', defs=['UNIT_H="mpd_hook.h"', 'NB=9', 'FAMILY=1'], unwind=12, fs='none', cap=900, hunwind=20, validate=2,
+ Ob(['C20'], 'frame_json_leafs', 'jd_hook', 'harness/jd_leaf.c', 'h_keyword', defs=['UNIT_H="jd_hook.h"', 'NB=6'], unwind=8, fs='none', cap=200, hunwind=24, validate=2, witness=False, desc='store hook on keyword scanning', bound='as keyword'),
+ Ob(['C20'], 'frame_msgpack_ints', 'mpd_hook', 'harness/mpd.c', 'h_md_variant', defs=['UNIT_H="mpd_hook.h"', 'NB=9', 'FAMILY=1'], unwind=12, fs='none', cap=900, hunwind=20, validate=2, witness=False,
     desc='store hook while MessagePack integers of every width are decoded: no store into a global (e.g. a static scratch buffer)', bound='as md_variant_ints'),
- Ob(['C20'], 'frame_msgpack_floats_str', 'mpd_hook', 'harness/mpd.c', 'h_md_variant', defs=['UNIT_H="mpd_hook.h"', 'NB=8', 'FAMILY=3'], unwind=11, fs='none', cap=400, hunwind=20, validate=2,
+ Ob(['C20'], 'frame_msgpack_floats_str', 'mpd_hook', 'harness/mpd.c', 'h_md_variant', defs=['UNIT_H="mpd_hook.h"', 'NB=8', 'FAMILY=3'], unwind=11, fs='none', cap=400, hunwind=20, validate=2, witness=False,
     desc='store hook while MessagePack strings are decoded', bound='as md_variant_str'),
 ]
-KH = dict(fs=4096, cap=400, hunwind=44, objbits=12, validate=2)
+KH = dict(fs=4096, cap=400, hunwind=44, objbits=12, validate=2, witness=False)   # same harness entries as the witnessed obligations ser_arr / hist_* / one_i64
 OBS += [
  Ob(['C20'], 'frame_doc_build_serialize', 'doc_hook', 'harness/doc_ser.c', 'h_ser_arr', defs=['UNIT_H="doc_hook.h"'], unwind=14, desc='store hook while a document [i,"s",u] is built and serialized: every store of the library lands in the document memory (arena), the caller buffer or the stack, never in a global', bound='as ser_arr', **KH),
  Ob(['C20'], 'frame_doc_history', 'doc_hook', 'harness/doc_hist.c', 'h_add_remove_add', defs=['UNIT_H="doc_hook.h"', 'R=1'], unwind=8, desc='store hook during add/add/add/remove/add on a document', bound='as hist_add_remove_add_r1', **KH),
